@@ -17,6 +17,9 @@ type caseC01 struct {
 	Doc    model.Doc
 	Layout model.Layout
 	Faults []model.Fault // empty: the text is valid by construction
+	// Text, if set, is an arbitrary text that is classified by the reference recogniser
+	// (model.Recognise) instead of being valid/invalid by construction.
+	Text *model.Text `json:",omitempty"`
 }
 
 func genFaults(t *rapid.T, maxN int) []model.Fault {
@@ -37,6 +40,27 @@ func genFaults(t *rapid.T, maxN int) []model.Fault {
 
 func genC01(t *rapid.T, _ *evid.Rec) caseC01 {
 	o := gen.Opts{AllowMany: true, BigDurations: true}
+	if rapid.IntRange(0, 3).Draw(t, "recogniserPart") == 0 {
+		// arbitrary texts, classified by the reference recogniser
+		var text string
+		switch rapid.IntRange(0, 3).Draw(t, "textClass") {
+		case 0:
+			text = gen.Soup(t, "soup")
+		default:
+			d := gen.Doc(t, gen.Opts{MaxRecords: 4})
+			l := gen.Layout(t, len(d.Records))
+			var lines []model.LineInfo
+			text, lines = model.Render(d, l)
+			if rapid.Bool().Draw(t, "faultFirst") {
+				if fl, _, applied := applyFaults(d, l, lines, genFaults(t, 2)); len(applied) > 0 {
+					text = model.TextOf(fl)
+				}
+			}
+			text = gen.Mutate(t, text, "mut")
+		}
+		mt := model.Text(text)
+		return caseC01{Text: &mt}
+	}
 	d := gen.Doc(t, o)
 	c := caseC01{Doc: d, Layout: gen.Layout(t, len(d.Records))}
 	if rapid.Bool().Draw(t, "withFaults") {
@@ -75,8 +99,43 @@ func applyFaults(d model.Doc, l model.Layout, lines []model.LineInfo, fs []model
 	return lines, manifest, applied
 }
 
+// checkRecognised compares klog's verdict on an arbitrary text with the reference recogniser.
+func checkRecognised(text string) (Outcome, error) {
+	var out Outcome
+	if hasUnrepresentableDuration(text) {
+		out.Label("excluded:F2-unrepresentable-duration-literal")
+		return out, nil
+	}
+	rec := model.Recognise(text)
+	if rec.Verdict == model.Unsure {
+		out.Label("recogniser:unsure")
+		return out, nil
+	}
+	records, blocks, errs := parser.NewSerialParser().Parse(text)
+	if rec.Verdict == model.Invalid {
+		out.Label("recogniser:invalid")
+		if len(errs) == 0 || records != nil || blocks != nil {
+			return out, fmt.Errorf("the text breaks the specification (%s) but klog accepts it (%d records)\ntext: %s", rec, len(records), quoteShort(text))
+		}
+		out.NonTrivial = true
+		return out, nil
+	}
+	out.Label("recogniser:valid")
+	if errs != nil {
+		return out, fmt.Errorf("the text conforms to the specification (%d records) but klog rejects it: line %d %s\ntext: %s", len(rec.Doc.Records), errs[0].LineNumber(), errs[0].Code(), quoteShort(text))
+	}
+	if err := compareDoc(rec.Doc, records); err != nil {
+		return out, fmt.Errorf("%v\ntext: %s", err, quoteShort(text))
+	}
+	out.NonTrivial = len(rec.Doc.Records) > 0
+	return out, nil
+}
+
 func checkC01(c caseC01) (Outcome, error) {
 	var out Outcome
+	if c.Text != nil {
+		return checkRecognised(string(*c.Text))
+	}
 	text, lines := model.Render(c.Doc, c.Layout)
 	if len(c.Faults) == 0 {
 		records, blocks, errs := parser.NewSerialParser().Parse(text)
